@@ -56,8 +56,10 @@ class HTTPPolicySource(PolicySource):
                 etag_header = r.headers.get("etag")
         except Exception:
             etag_header = None
-        if isinstance(etag_header, str) and etag_header:
-            self._etag = etag_header
+        # Remember the new ETag only together with a successfully parsed body (below): a tag
+        # stored for an unparsable body would make the next conditional GET answer 304 and
+        # "load" the previous (or an empty) policy.
+        new_etag: str | None = etag_header if isinstance(etag_header, str) and etag_header else None
 
         # JSON fast-path: if a .json() method exists, try it regardless of headers.
         # Many tests/stubs provide only .json() with no .text/.content or Content-Type.
@@ -71,6 +73,8 @@ class HTTPPolicySource(PolicySource):
 
                         validate_policy(obj)
                     self._policy_cache = obj
+                    if new_etag:
+                        self._etag = new_etag
                     return obj
             except Exception:
                 # fall through to text parsing below
@@ -122,6 +126,8 @@ class HTTPPolicySource(PolicySource):
 
                     validate_policy(obj)
                 self._policy_cache = obj
+                if new_etag:
+                    self._etag = new_etag
                 return obj
 
         policy = parse_policy_text(body_text or "", filename=self.url, content_type=content_type)
@@ -132,6 +138,8 @@ class HTTPPolicySource(PolicySource):
             validate_policy(policy)
         # Cache the last successfully parsed policy for 304 reuse
         self._policy_cache = policy
+        if new_etag:
+            self._etag = new_etag
         return policy
 
     def etag(self) -> str | None:
